@@ -243,7 +243,11 @@ func (g *genCtx) retryAfter(t *rapid.T, retryable bool) string {
 }
 
 func (g *genCtx) retryInfo(t *rapid.T) int {
-	switch pick(t, "retry_info", 40, 15, 25, 20) {
+	long := 20
+	if g.slowBias {
+		long = 60 // a long hint is what makes a short MaxElapsedTime bite before the next attempt
+	}
+	switch pick(t, "retry_info", 40, 15, 25, long) {
 	case 0:
 		return -1
 	case 1:
@@ -329,9 +333,13 @@ func (g *genCtx) innerStep(t *rapid.T) Step {
 	if g.grpc {
 		reset = 0
 	}
-	slow, long := 12, 4
+	slow, long, slowRetryable := 12, 4, 2
 	if g.slowBias {
-		slow, long = 30, 2
+		// a long answer is what makes a short MaxElapsedTime bite on HTTP (no usable hints there)
+		slow, long, slowRetryable = 40, 4, 5
+		if g.grpc {
+			slow = 15
+		}
 	}
 	switch pick(t, "inner", 60, 12, slow, reset, hold, 4) {
 	case 0:
@@ -340,11 +348,11 @@ func (g *genCtx) innerStep(t *rapid.T) Step {
 		return g.anyStatus(t)
 	case 2:
 		st := g.anyStatus(t)
-		if rapid.Bool().Draw(t, "slow_retryable") {
+		if uniform(t, "slow_retryable", slowRetryable) > 0 {
 			st = g.retryableStep(t)
 		}
 		st.Kind, st.DelayMS = "slow", 20
-		if g.longSlow > 0 && uniform(t, "long_slow", long) == 0 {
+		if g.longSlow > 0 && (uniform(t, "long_slow", long) == 0 || g.slowBias && !g.grpc) {
 			g.longSlow--
 			st.DelayMS = 300
 		}
